@@ -1,2 +1,6 @@
 import TransportVerif.Props.C10
-#print axioms TV.Props.C10.placeholder
+#print axioms TV.Props.C10.signal_iff_passed
+#print axioms TV.Props.C10.timeout_only_if_passed
+#print axioms TV.Props.C10.blocked_read_released_at_expiry
+#print axioms TV.Props.C10.timeout_persists
+#print axioms TV.Props.C10.later_or_zero_deadline_reads_again
